@@ -392,6 +392,28 @@ func (s *Sim) Summary() string {
 	return fmt.Sprintf("ops=%d coins=%d sigs=%d mintq=%d meltq=%d stats=%v", s.NOps, len(s.Coins), len(s.Sigs), len(s.MintQs), len(s.MeltQs), s.Stats)
 }
 
+// DirectedBadOutputs: every adversarial output construction once through Swap and once through
+// MintTokens, each followed by the corrected request on the same inputs / the same paid quote
+// (so that what a refused request left behind shows), whatever the seed.
+func (s *Sim) DirectedBadOutputs() {
+	for _, mode := range advOutModes {
+		s.Fund(96)
+		in := s.pickFor(40)
+		if in != nil {
+			if !s.Swap(in, Proofs(in), mode, "") {
+				s.Swap(in, Proofs(in), "exact", "")
+			}
+		}
+		if q := s.NewMintQuote(77, false); q != nil {
+			s.PayMintQuote(q)
+			s.Mint(q, mode)
+			if q.Issued == 0 {
+				s.Mint(q, "exact")
+			}
+		}
+	}
+}
+
 // DirectedAmbiguousPolls: a melt whose payment stays in flight, n state polls whose status lookup ends
 // in an error (through an adapter: every flavour of error its node produces, in turn), then Lightning
 // finishes, a last poll, and an attempt to swap the melt's inputs. The oracle is the model's as ever.
